@@ -42,12 +42,12 @@ def variant_sig(stack, v, kind='dist'):
         return {'lib': ('lib-src',), 'lib2': ('lib2-src',), 'dl': ('dl-src', v['urlsrc'])}.get(name)
     if name == 'lib':
         p = 'y' if stack == 'root/lib' else ('z' if stack == 'root/via3/lib' else ('x' if v['reparam'] else ''))
-        return ('lib', v['libscript'], v['invars'] and v['var'], p, v['clssetup'], v['toolpath'])
+        return ('lib', v['libscript'], (v['invars'], v['invars'] and v['var']), p, v['clssetup'], v['toolpath'])
     if name == 'app': return ('app', v['reparam'], v['lib2'], v['provide'], v['libscript'], v['invars'], v['toolpath'], v['clssetup'], v['urlsrc'] and v['lib2'], v['defval'] and v['lib2'])
     if name == 'root': return None      # changes with everything
     if name == 'gen': return ('gen',)
     if name in ('alpha', 'beta'): return (name,)          # identical packages of different recipes: separate directories in develop mode
-    if name == 'via3': return ('via3', v['libscript'], v['invars'] and v['var'], v['clssetup'], v['toolpath'])
+    if name == 'via3': return ('via3', v['libscript'], (v['invars'], v['invars'] and v['var']), v['clssetup'], v['toolpath'])
     if name == 'lib2': return ('lib2', v['defval'], v['urlsrc'])
     if name == 'dl': return ('dl', v['urlsrc'])
     return None
